@@ -2,7 +2,7 @@
 
 Generated: per unit a controller (primary ULT, a ULT or an external thread) applies a
 history over {create, cancel, join, revive, free} to a named ULT or tasklet whose body
-yields, checks its own state, may ABT_thread_exit, may create and join a child, or is
+yields, checks its own state, may ABT_thread_exit or ABT_self_exit, may create and join a child, or is
 started by ABT_self_suspend_to; cancel races with the start, the yields and the join;
 observers on other streams / external threads sample ABT_thread_get_state meanwhile;
 unnamed units exit or finish on their own.
@@ -48,7 +48,7 @@ def cases(draw, ctx):
                 body.append(c)
             extra = draw(st.sampled_from(["", "", "exit", "child"]))
             if extra == "exit":
-                body += ["exit", "work 1"]
+                body += [draw(st.sampled_from(["exit", "selfexit"])), "work 1"]
             elif extra == "child":
                 child = len(units)
                 units.append("unit %d type=ult named=1 pool=%d : yieldn %d" %
@@ -119,7 +119,7 @@ def cases(draw, ctx):
         if k == "ult":
             body = [draw(st.sampled_from(["yield", "work 1", "yieldn 2"]))]
             if draw(st.booleans()):
-                body += ["exit", "work 1"]
+                body += [draw(st.sampled_from(["exit", "selfexit"])), "work 1"]
         units.append("unit %d type=%s named=0 pool=%d : %s" %
                      (u, k, draw(st.integers(0, npools - 1)), "; ".join(body)))
         main_ops.append("create %d" % u)
@@ -146,7 +146,7 @@ def judge(text, res, ctx):
 def classify(text, res, ctx):
     out = []
     for k in ("cancels", "cancel_while_running", "cancel_after_end", "joined_cancelled", "revives",
-              "exits", "sample_terminated", "sample_blocked", "sample_ready", "sample_running",
+              "exits", "self_exits", "sample_terminated", "sample_blocked", "sample_ready", "sample_running",
               "directed_switches"):
         if stat(res, k):
             out.append(k)
